@@ -31,6 +31,8 @@ static struct {
 	int active;
 	struct timespec vnow;
 	char dir[300], setfile[300];
+	char setfile_arg[300];       /* the spelling handed to mtbl_fileset_init: the absolute path, or (process chdir'ed into the directory) "set.fileset" / "./set.fileset" */
+	int relative_only;           /* such histories name their tables by relative lines only */
 	diskfile_t disk[NF]; char junk[300];
 	loaded_t view[NF + 4]; int nview;
 	ino_t seen_ino; time_t seen_mtime; int seen_any;
@@ -59,7 +61,7 @@ static void model_reload_attempt(void);
 int __wrap_stat(const char *path, struct stat *st)
 {
 	int r = __real_stat(path, st);
-	if (G.active && !G.in_init && strcmp(path, G.setfile) == 0) {
+	if (G.active && !G.in_init && (strcmp(path, G.setfile) == 0 || strcmp(path, G.setfile_arg) == 0)) {
 		/* one reload attempt inside my_fileset_reload */
 		STAT("events.stat_setfile");
 		G.attempts++;
@@ -179,10 +181,10 @@ static void write_setfile_version(rng_t *r)
 	int order[NF]; for (int i = 0; i < NF; i++) order[i] = i;
 	for (int i = NF - 1; i > 0; i--) { int j = rndn(r, i + 1); int t = order[i]; order[i] = order[j]; order[j] = t; }   /* lines in any order */
 	int p = 300 + rndn(r, 600);
-	for (int i = 0; i < NF; i++) if (rndp(r, p)) { const char *b = strrchr(G.disk[order[i]].path, '/') + 1; int inside = strncmp(G.disk[order[i]].path, G.dir, strlen(G.dir)) == 0 && G.disk[order[i]].path[strlen(G.dir)] == '/';
+	for (int i = 0; i < NF; i++) if (rndp(r, p)) { const char *b = strrchr(G.disk[order[i]].path, '/') + 1; if (G.relative_only) { fprintf(f, "%s\n", b); continue; } int inside = strncmp(G.disk[order[i]].path, G.dir, strlen(G.dir)) == 0 && G.disk[order[i]].path[strlen(G.dir)] == '/';
 		if (inside && rndp(r, 500)) fprintf(f, "%s\n", b); else { fprintf(f, "%s\n", G.disk[order[i]].path); if (!inside) STAT("actions.setfile_line_absolute_outside_setfile_directory"); } }
 	if (rndp(r, 250)) fprintf(f, "never-existed.mtbl\n");
-	if (rndp(r, 250)) fprintf(f, "%s\n", rndp(r, 500) ? "junk.bin" : G.junk);
+	if (rndp(r, 250)) fprintf(f, "%s\n", (G.relative_only || rndp(r, 500)) ? "junk.bin" : G.junk);
 	if (rndp(r, 150)) fprintf(f, "\n");                       /* a blank line resolves to the setfile's directory: exists, is not a table */
 	if (rndp(r, 250)) { long sz = ftell(f); if (sz > 0) { fflush(f); if (ftruncate(fileno(f), sz - 1) == 0) STAT("actions.setfile_without_final_newline"); } }
 	fclose(f);
@@ -269,7 +271,15 @@ static void case_c07(const args_t *a, long c, rng_t *r)
 	gen_model(r, &sh, 8 + rndn(r, 60), rndp(r, 300), &G.universe); shape_free(&sh);
 	/* in a third of the histories every third table lives in a sibling directory (named by absolute path only: a different directory prefix
 	 * than the setfile's own, in front of and behind relative lines) */
-	int side = rndn(r, 3) == 0;
+	int bare = rndn(r, 4) == 0;      /* a quarter of the histories open the fileset by a name without any directory part */
+	int side = !bare && rndn(r, 3) == 0;
+	char oldcwd[4096] = "";
+	snprintf(G.setfile_arg, sizeof G.setfile_arg, "%s", G.setfile);
+	if (bare && getcwd(oldcwd, sizeof oldcwd) && chdir(G.dir) == 0) {
+		snprintf(G.setfile_arg, sizeof G.setfile_arg, "%s", rndn(r, 2) ? "set.fileset" : "./set.fileset");
+		G.relative_only = 1;
+		STAT("histories.fileset_opened_by_a_name_relative_to_the_working_directory");
+	} else bare = 0;
 	char sidedir[300]; snprintf(sidedir, sizeof sidedir, "%s.side", G.dir); if (side) { mkdir(sidedir, 0700); STAT("histories.with_tables_in_a_sibling_directory"); }
 	for (int d = 0; d < NF; d++) { snprintf(G.disk[d].path, sizeof G.disk[d].path, "%s/f%d.mtbl", side && d % 3 == 2 ? sidedir : G.dir, d); if (rndp(r, 700)) write_table_file(r, d); }
 	write_setfile_version(r);
@@ -277,7 +287,7 @@ static void case_c07(const args_t *a, long c, rng_t *r)
 	G.forced_pending = 1;          /* a fresh fileset must load on its first source operation */
 	G.active = 1;
 	/* original handle */
-	{ struct mtbl_fileset_options *fo = handle_opts(r, &H[0]); G.in_init = 1; H[0].f = mtbl_fileset_init(G.setfile, fo); G.in_init = 0; mtbl_fileset_options_destroy(&fo); }
+	{ struct mtbl_fileset_options *fo = handle_opts(r, &H[0]); G.in_init = 1; H[0].f = mtbl_fileset_init(G.setfile_arg, fo); G.in_init = 0; mtbl_fileset_options_destroy(&fo); }
 	int nactions = 20 + rndn(r, a->thorough ? 140 : 100);
 	int max_handles = 1, iters_across_change = 0;
 	/* scripted prefixes on some cases: the F3 family and deferred reloads */
@@ -388,6 +398,7 @@ static void case_c07(const args_t *a, long c, rng_t *r)
 	{ uint64_t hh = 0; for (int i = 0; i < ntrace && i < 64; i++) hh = fnv64(trace[i], strlen(trace[i]), hh); case_hash(hh ^ (uint64_t)c); }
 	for (int i = 0; i < G.nview; i++) model_free(&G.view[i].content);
 	for (int d = 0; d < NF; d++) delete_table_file(d);
+	if (bare && chdir(oldcwd) != 0) { fprintf(stderr, "harness: cannot return to %s\n", oldcwd); exit(99); }
 	unlink(G.junk); unlink(G.setfile); rmdir(G.dir); if (side) rmdir(sidedir);
 	model_free(&G.universe);
 }
